@@ -15,7 +15,7 @@ CONFIG = {
     ],
     "assumptions": [
         "model/BclLexer.v, BclParser.v, BclErrpos.v are hand-written models of lexer.go, token.go, parser.go (ParseFile, Walk, walkFragments and all productions, recoverError, fragmentsToFile), expressions.go NewReference and errpos/print.go humanString as they are after the fix: commits listed in KNOWN_FINDINGS.txt; they are tied to the code by the correspondence stream of this run (tokens with literals and ranges, fragment and tree node ranges, diagnostic ranges, humanString branch / context count / caret width) and by the regenerated tables",
-        "theorems are stated over the rune slice []rune(input) (parse_runes); parse_file = parse_runes after utf8_decode by definition; 'inside the input' is proved both for lines of the rune slice and for strings.Split(input, "\\n") on bytes with columns counted in runes of the line (C11_valid_is_inside_bytes, from a proof that []rune conversion commutes with splitting at newlines)",
+        "theorems are stated over the rune slice []rune(input) (parse_runes); parse_file = parse_runes after utf8_decode by definition; 'inside the input' is proved both for lines of the rune slice and for strings.Split(input, newline) on bytes with columns counted in runes of the line (C11_valid_is_inside_bytes, from a proof that []rune conversion commutes with splitting at newlines)",
         "Walk on a token slice that the lexer did not produce (tokens of type EOF, empty slice with a pending pop) is outside the theorems: ParseFile only passes lexer output",
     ],
     "mult_search": 4,
